@@ -1,4 +1,4 @@
-SPECIFICATION MCSpec
+SPECIFICATION GSpec
 CONSTANTS
   Client = {"c1", "c2"}
   Eth <- E2
@@ -13,14 +13,20 @@ CONSTANTS
   MaxFee = 1
   MintAmts = {1, 3}
   PctMilli = 700
-  MaxBurnNonce = 3
+  MaxBurnNonce = 9
   Staked = {"a1", "a2"}
-  Nonces = {0, 1, 2}
-  SigSeqs <- Multi4
+  Nonces = {0}
+  SigSeqs <- NoSeqs
   BurnVals <- NoVals
   Acceptance = "written"
   CountsUnverified = TRUE
   RewardNeedsStake = TRUE
-VIEW StateView
-PROPERTIES P_C18_QuorumOfWellFormed P_C18_NonceOnce P_C18_AmountsUnlessUnstaked P_C19_BurnExact
+  GenModes <- HistOnly
+  GenLen = 3
+  SweepN = 0
+  GBurns <- AllBurns
+  GMints <- OneMint
+  GAuthOps <- NoOps
+VIEW GView
+INVARIANT GPrint
 CHECK_DEADLOCK FALSE
